@@ -268,6 +268,14 @@ impl<'a> Filler<'a> {
                 if t.is_empty() {
                     t.push_str("u;%");
                 }
+                // URIs that already contain the escape sequences of the text form (read last, so that byte strings
+                // recorded before this was added still produce the same value)
+                if self.chance(96) {
+                    let tok = ["%3b", "%25", "%3B", "%253b", "%2", "%", "3b", "25", ";%3b", "%25%3b"][self.below(10)];
+                    let at = self.below(t.chars().count() + 1);
+                    let idx = t.char_indices().nth(at).map(|x| x.0).unwrap_or(t.len());
+                    t.insert_str(idx, tok);
+                }
                 UAString::from(t)
             }
         };
